@@ -118,16 +118,23 @@ def check_case(case, counters, sets):
             for did in cause:
                 if did in triggered and triggered[did][0] < e[0]:
                     t = triggered[did]
-                    if inherited:
+                    if inherited == 'flatten':
                         add('C04:signal-before-consumer-end-of-metadata-less-flatten-piece',
                             'consumer %s %s %r at t=%s, signal was given at t=%s' % (e[3], k, e[4], e[1], t[1]), did)
+                    elif inherited:
+                        add('C04:signal-before-consumer-end-of-data-handed-on-without-its-metadata@%s' % inherited,
+                            'consumer %s %s %r at t=%s, signal was given at t=%s; the data reached it without metadata: '
+                            'a %s node handed it on without the metadata it had received'
+                            % (e[3], k, e[4], e[1], t[1], inherited), did)
                     else:
                         add('C04:signal-before-consumer-%s@sink' % ('start' if k == 'START' else 'end'),
                             'element signalled complete at t=%s (in %s) but consumer %s %s %r at t=%s'
                             % (t[1], t[2], e[3], k, e[4], e[1]), did)
             if k == 'FAILED':
                 for did in cause:
-                    failed.setdefault(did, ('metadata-less-flatten-piece consumer %s' if inherited else 'consumer %s') % e[3])
+                    failed.setdefault(did, ('metadata-less-flatten-piece consumer %s' if inherited == 'flatten' else
+                                            'data-handed-on-without-metadata-by-' + inherited + ' consumer %s' if inherited
+                                            else 'consumer %s') % e[3])
         elif k == 'FN_FAILED':
             arr = ma_in.get(e[3], [])
             if e[5] < len(arr):
